@@ -262,11 +262,13 @@ def run(m: Model, r: Report, tier: str) -> None:
             if isinstance(n, ast.For) and isinstance(n.iter, ast.Call) and isinstance(n.iter.func, ast.Attribute) and n.iter.func.attr == "split" and n.iter.args:
                 a0 = n.iter.args[0]
                 outer = cv.get(ast.unparse(a0), a0.value if isinstance(a0, ast.Constant) else None)
-            if isinstance(n, ast.If) and isinstance(n.test, ast.Compare) and isinstance(n.test.ops[0], ast.In):
+            if isinstance(n, (ast.If, ast.IfExp)) and isinstance(n.test, ast.Compare) and isinstance(n.test.ops[0], (ast.In, ast.NotIn)):
                 a0 = n.test.left
-                inner = cv.get(ast.unparse(a0), a0.value if isinstance(a0, ast.Constant) else None)
+                got = cv.get(ast.unparse(a0), a0.value if isinstance(a0, ast.Constant) else None)
+                inner = got if isinstance(got, str) else inner
         return outer, inner
-    r.check(delimiters(un) == (",", "-"), "R5", f"{un.qualname}#delimiters", f"delimiters {delimiters(un)}", loc=un.loc)
+    dl_ = delimiters(un)
+    r.check3(None if None in dl_ else dl_ == (",", "-"), "R5", f"{un.qualname}#delimiters", f"delimiters {dl_}", loc=un.loc)
     rng = [n for n in ast.walk(un.node) if isinstance(n, ast.Call) and ast.unparse(n.func) == "range"]
     # every parsed range reaches the expansion loop: nothing between parsing the bounds and the loop skips the element (a-a is {a})
     from sa.cfg import CFG as _CFG
@@ -287,7 +289,8 @@ def run(m: Model, r: Report, tier: str) -> None:
     r.check(m.has(un, "sorted(result)") and m.has(un, "result = set()") and us.count("auto_int(") == 3, "R5", f"{un.qualname}#sorted-union",
             "the result must be the sorted union and every number parsed with auto_int", loc=un.loc)
     u2 = m.require_function(f"{UTILS}.unravel_2d")
-    r.check(delimiters(u2) == (" ", ":"), "R5", f"{u2.qualname}#delimiters", f"delimiters {delimiters(u2)}", loc=u2.loc)
+    dl2_ = delimiters(u2)
+    r.check3(None if None in dl2_ else dl2_ == (" ", ":"), "R5", f"{u2.qualname}#delimiters", f"delimiters {dl2_}", loc=u2.loc)
     src2 = ast.unparse(u2.node)
     r.check(src2.count("unravel(") == 3 and m.has(u2, "sorted(ur)") and m.has(u2, "sorted(unsorted_result)"), "R5", f"{u2.qualname}#uses-unravel",
             "both levels must be parsed with unravel and the result sorted", loc=u2.loc)
